@@ -226,6 +226,18 @@ PROPS["C20"] = {
     "assumptions": ["one namespace or unique names across namespaces (identity is metadata.name; see DESIGN §5.2)"],
     "timeout": {"quick": 1800, "thorough": 14400},
 }
+PROPS["C07"] = {
+    "runner": "c07",
+    "design_ref": "DESIGN.md §6 C07",
+    "technique": "Lean 4 theorems over the L0 machine: exact behaviour of a tick (send one Keep Alive / timeout Disconnect), Keep Alive only when none outstanding, outstanding id cleared only by a frame with the same id, MissedKeepAlive only from a tick with one outstanding, and by induction over arbitrary tick/completion sequences a prompt client is never dropped; extracted period = 16; differential runs under virtual time with per-adapter latencies and echo policies, timestamps judged by an independent oracle",
+    "level_text": "Machine-checked proofs for every environment and state: in the configuration phase a tick with nothing outstanding sends exactly one Keep Alive (hence consecutive Keep Alives are one period apart, the first within one period), a tick with one outstanding sends the localized timeout Disconnect and ends with MissedKeepAlive; a Keep Alive is never sent while one is outstanding; the outstanding id is cleared only by a configuration-phase frame and kaEcho clears only the SAME id (wrong, duplicate, unsolicited echoes change nothing); MissedKeepAlive has no other cause (for environments whose services report their own errors); and for EVERY sequence of ticks and adapter completions — any backend latencies — a client echoing each Keep Alive on receipt is never dropped. The period constant is re-extracted from the source. The real Connection is run under tokio virtual time with latencies of 0..4 periods per adapter, Client Information at 0..40 s and echo policies prompt/delayed/late/never/wrong id/duplicate/unsolicited; packet timestamps are checked against K1-K4.",
+    "level_note": "Trusted: Lean kernel; tokio Interval semantics (period, first tick immediate, Skip) are modelled as one tick input per period while the handler waits for input and tied by the virtual-time runs; inline-awaited adapters return promptly; keep-alive ids distinct (elapsed milliseconds).",
+    "lean_modules": ["Passage.Props.C07"],
+    "cases": {"quick": 400, "thorough": 12000},
+    "rule": "login to the configuration phase, then a timeline: Client Information at 50 ms / 5 s / 20 s / 40 s, discovery/filter/strategy latencies from {0, 3, 17, 33, 70 s} (thorough up to 40 periods), per Keep Alive an echo policy (prompt +150 ms, delayed 8 s / 15.7 s, duplicate, and in 40% of scenarios one Keep Alive late +16.15 s / never / wrong id), optional unsolicited echo; events at ms offsets away from tick instants; non-trivial = every scenario with at least one tick; distinct = distinct request lines",
+    "trusted_base": TB_COMMON + ["tokio Interval/paused-clock semantics (ticks delivered one per period by the harness, as under real time)", "Env oracles as for the frame-level properties"],
+    "assumptions": ["the client reads what it is sent (no back-pressure)", "EnvSane: backend services never report MissedKeepAlive themselves"],
+}
 
 # properties not claimed yet (kept current; the reason is the honest status)
 NOT_YET = {f"C{i:02d}": "check not built yet in this round (planned per DESIGN.md §9); no claim is made until its check runs green" for i in range(1, 21)}
